@@ -6,7 +6,7 @@ import glob, json, os, re, subprocess, sys, shutil
 V = os.path.dirname(os.path.dirname(os.path.abspath(__file__)))
 FIX = [  # (glob under regress/, fix commit, signature regex of the defect)
  ('C02/s7_*', 'a595176', r'lock-stranded|reacquire-stranded|livelock'),
- ('C02/s8_*', 'e57970f', r'lock-stranded|reacquire-stranded'),
+ ('C02/s8_*', 'revert:e57970f', r'lock-stranded|reacquire-stranded'),   # on the tree before it, later-repaired cv defects crash first
  ('C03/s4_*', 'c56d85f', r'race:'),
  ('C04/s4_*', 'c56d85f', r'signal-lost|broadcast-missed|crash|deadstack|woken'),
  ('C11/s4_*', 'c56d85f', r'.'),
@@ -21,16 +21,24 @@ def sh(cmd, **kw):
     return subprocess.run(cmd, shell=True, stdout=subprocess.PIPE, stderr=subprocess.STDOUT, text=True, **kw)
 regen = '--regenerate' in sys.argv
 bad = []
+used = set()
 for pat, fix, sigre in FIX:
-    wt = f'/tmp/rv_{fix}'
+    wt = f'/tmp/rv_{fix.replace(":", "_")}'
     if not os.path.isdir(wt):
-        sh(f'git -C /repo worktree add -q --detach {wt} {fix}^')
+        if fix.startswith('revert:'):
+            # the current tree minus this one repair
+            sh(f'git -C /repo worktree add -q --detach {wt} HEAD')
+            r = sh(f'git -C {wt} revert --no-commit {fix[7:]}')
+            if r.returncode != 0:
+                print('cannot revert', fix, r.stdout[-300:]); continue
+        else:
+            sh(f'git -C /repo worktree add -q --detach {wt} {fix}^')
     for tape in sorted(glob.glob(f'{V}/regress/{pat}.tape')):
         pid = tape.split('/')[-2]
         r = sh(f'python3 {V}/tools/check.py {pid} --replay {tape}', env=dict(os.environ, VERIF_REPO=wt))
         ok = r.returncode == 1
         line = [l for l in r.stdout.splitlines() if l.startswith('REPLAY')][-1:] or ['?']
-        print(('FAILS-AS-IT-SHOULD ' if ok else 'NO-LONGER-REPRODUCES ') + os.path.relpath(tape, V) + ' @' + fix + '^  ' + line[0][:120], flush=True)
+        print(('FAILS-AS-IT-SHOULD ' if ok else 'NO-LONGER-REPRODUCES ') + os.path.relpath(tape, V) + ' @' + fix + '  ' + line[0][:120], flush=True)
         if not ok:
             bad.append((tape, pid, fix, sigre, wt))
 if regen:
@@ -40,11 +48,13 @@ if regen:
         cands = []
         for m in sorted(glob.glob(f'{V}/replays/{pid}/*.json')):
             d = json.load(open(m))
-            if re.search(sigre, d.get('sig', '')) and os.path.exists(m[:-5] + '.tape'):
-                cands.append((m, d))
+            if re.search(sigre, d.get('sig', '')) and os.path.exists(m[:-5] + '.tape') and '(gcc_new)' in d.get('source', '(gcc_new)'):
+                if open(m[:-5] + '.tape', 'rb').read() not in used:
+                    cands.append((m, d))
         if not cands:
             print(f'could not regenerate {os.path.relpath(tape, V)}: no violation matching /{sigre}/ on {fix}^ ({[l for l in r.stdout.splitlines() if "violation" in l][:3]})'); continue
         m, d = cands[0]
+        used.add(open(m[:-5] + '.tape', 'rb').read())
         shutil.copy(m[:-5] + '.tape', tape)
         meta = tape[:-5] + '.json'
         old = json.load(open(meta)) if os.path.exists(meta) else {}
